@@ -19,7 +19,7 @@ pub static DEF: PropertyDef = PropertyDef {
            warning; after an error the story cannot continue until reset; after reset no message is left. \
            Non-trivial = at least one warning or error was delivered; distinct = hash of program+history.",
     assumptions: &["sites are placed only in code that runs at most once between resets (knots reached by forward diverts), so a repeated message is a repeated delivery"],
-    runs_quick: 3000,
+    runs_quick: 10000,
     runs_thorough: 200000,
     exhaustive_note: "none (sampled programs and histories)",
     generate,
@@ -37,6 +37,9 @@ fn generate(_corpus: &Corpus, tier: Tier, run: u64, rng: &mut Rng) -> Option<Cas
     g.message_sites = true;
     g.loops = false;
     g.random = false;
+    // `TURNS_SINCE(-> k)` inside choice text is compiled as text plus a divert (compiler quirk), which re-runs
+    // content; the at-most-once assumption about sites needs programs without it
+    g.turns = false;
     g.externals = false;
     g.stmts = 3 + rng.below(5);
     g.knots = 2 + rng.below(3);
